@@ -204,6 +204,38 @@ example : decodeN (fun _ => some 1) 3 { rest := [0x5d], err := false } =
     ([DRes.ok, DRes.ok, DRes.ok], { rest := [0x5d], err := false }) := by decide
 example : decode (fun _ => some 1) { rest := [0x20, 0x31], err := false } = (DRes.ok, { rest := [], err := false }) := by decide
 
+/-! ## positions reported by the Go glue, with the clamp of patches/C07-error-position-clamp.diff -/
+
+/-- `error_pos_in_input` for the Go glue: whatever cursor the native code hands back (any integer, also far
+    outside), every modelled wrapper that builds an error value reports a position inside the source -/
+theorem error_pos_in_input (size raw base : Int) (hs : 0 ≤ size) :
+    (0 ≤ errorWrapPos size raw ∧ errorWrapPos size raw ≤ size) ∧
+    (0 ≤ checkTrailingsPos size raw ∧ checkTrailingsPos size raw ≤ size) ∧
+    (0 ≤ optdecFixErrorPos size base raw ∧ optdecFixErrorPos size base raw ≤ size) ∧
+    (0 ≤ astSyntaxErrorPos size raw ∧ astSyntaxErrorPos size raw ≤ size) ∧
+    (0 ≤ skipErrorEnd size raw ∧ skipErrorEnd size raw ≤ size) := by
+  simp only [errorWrapPos, checkTrailingsPos, optdecFixErrorPos, astSyntaxErrorPos, skipErrorEnd, clampPos]
+  repeat' split
+  all_goals omega
+
+/-- the clamp loses nothing: a position that already lies inside the source is reported unchanged -/
+theorem clampPos_id_inside (size pos : Int) (h0 : 0 ≤ pos) (h1 : pos ≤ size) : clampPos pos size = pos := by
+  simp only [clampPos]
+  repeat' split
+  all_goals omega
+
+/-- with the clamp, formatting an ast syntax error can no longer panic (compare `astDescription_panics_iff`) -/
+theorem astDescription_clamped_safe (size raw : Int) (hs : 0 < size) :
+    astDescription size (astSyntaxErrorPos size raw) ≠ Fmt.panic := by
+  intro h
+  have hb := (astDescription_panics_iff size (astSyntaxErrorPos size raw) hs).1 h
+  have hp := (error_pos_in_input size raw 0 (by omega)).2.2.2.1
+  omega
+
+example : errorWrapPos 2 6 = 2 := by decide
+example : astSyntaxErrorPos 7 (-1) = 0 := by decide
+example : optdecFixErrorPos 10 3 4 = 7 := by decide
+
 -- non-vacuity
 example : bracketed 0 [SOp.save, SOp.save, SOp.load, SOp.drop2] = true := by decide
 example : run encM encS 0 [SOp.save, SOp.save, SOp.load, SOp.drop2] = SRes.ok 0 := by decide
